@@ -32,11 +32,11 @@ def gen(rng, i, tier):
     for _ in range(rng.choice([0, 1, 2, 4, 8, 20, 40])):
         r = rng.random()
         if r < 0.35:
-            ops.append(["set", G.rand_key(rng, G.SM_KEYS), None if rng.random() < 0.08 else G.rand_value(rng)])
+            ops.append(["set", G.rand_key(rng, G.SM_EDIT_KEYS), None if rng.random() < 0.08 else G.rand_value(rng)])
         elif r < 0.40:
             ops.append(["ser"])            # an intermediate serialisation must not influence later ones
         elif r < 0.45:
-            ops.append(["del", G.rand_key(rng, G.SM_KEYS)])
+            ops.append(["del", G.rand_key(rng, G.SM_EDIT_KEYS)])
         elif r < 0.55:
             ops.append(["attr", rng.choice(["title", "artist", "stops", "bgchanges", "displaybpm", "attacks", "offset"]), G.rand_value(rng)])
         elif r < 0.7:
